@@ -164,6 +164,29 @@ Fixpoint sep_by {A : Type} (sep : list A) (ls : list (list A)) : list A :=
   | x :: r => x ++ sep ++ sep_by sep r
   end.
 
+(* the results of the parser *)
+Inductive xres (A : Type) : Type :=
+| ROk (a : A)
+| RErr          (* panic(syntaxError(...)) *)
+| RCrash        (* any other run time panic *)
+| RFuel         (* out of fuel *)
+| RUnsup.       (* outside the model: function literal body, escapes in a tag or a path *)
+Arguments ROk {A} a.
+Arguments RErr {A}.
+Arguments RCrash {A}.
+Arguments RFuel {A}.
+Arguments RUnsup {A}.
+
+Definition rbind {A B : Type} (r : xres A) (f : A -> xres B) : xres B :=
+  match r with
+  | ROk a => f a
+  | RErr => RErr
+  | RCrash => RCrash
+  | RFuel => RFuel
+  | RUnsup => RUnsup
+  end.
+
+
 Section Model.
 (* generated: Facts_AstOps, Facts_AstPrim *)
 Variable op_string : list (N * bytes).
@@ -434,6 +457,12 @@ Definition is_word (s : bytes) : bool :=
   | [] => false
   end.
 
+Definition word_start (s : bytes) : bool :=
+  match s with
+  | c :: _ => is_word s || ((48 <=? c) && (c <=? 57))
+  | [] => false
+  end.
+
 Definition all_kwd : list kwd := [WMap; WStruct; WInterface; WFunc; WMacro; WChan; WType; WDefault; WRender].
 
 Definition named_tok (name : bytes) : tk :=
@@ -468,9 +497,8 @@ Definition glued (a b : bytes) : bool :=
 Definition lex_cons (t : list tk) (r : lexres) : lexres :=
   match r with LexOk ts => LexOk (t ++ ts) | LexErr => LexErr | LexUnsup => LexUnsup end.
 
-(* a raw string literal whose text has a backquote inside: with an odd number
-   of them the last raw string is not terminated; an even number is outside
-   the model *)
+(* a raw string literal whose text has a backquote inside is read as several
+   tokens or not at all: outside the model *)
 Definition raw_inner_quotes (s : bytes) : nat :=
   match s with
   | 96 :: r => length (filter (N.eqb 96) (removelast r))
@@ -493,14 +521,20 @@ Fixpoint relex (ps : list pc) : lexres :=
     else if k =? lit_string then
       match raw_inner_quotes s with
       | O => lex_cons [KLit k s] (relex r)
-      | n => if Nat.odd n then LexErr else LexUnsup
+      | _ => LexUnsup
       end
     else lex_cons [KLit k s] (relex r)
   | PcT (KSym a) :: r =>
     (* two operator tokens printed without a space that the lexer reads as one: && &^ ++ -- *)
     match r with
     | PcT (KSym b) :: r' =>
-      if glued a b then lex_cons [KSym (a ++ b)] (relex r') else lex_cons [reword (KSym a)] (relex r)
+      if glued a b then lex_cons [KSym (a ++ b)] (relex r')
+      else if is_word a && word_start b then LexUnsup
+      else lex_cons [reword (KSym a)] (relex r)
+    | PcT (KIdent b) :: _ | PcT (KLit _ b) :: _ =>
+      (* a word operator other than `not` printed as a unary operator is glued to its operand: outside the model *)
+      if is_word a && word_start b then LexUnsup else lex_cons [reword (KSym a)] (relex r)
+    | PcT (KKw _) :: _ => if is_word a then LexUnsup else lex_cons [reword (KSym a)] (relex r)
     | _ => lex_cons [reword (KSym a)] (relex r)
     end
   | PcT t :: r => lex_cons [reword t] (relex r)
@@ -514,27 +548,6 @@ Fixpoint toks (ps : list pc) : list tk :=
   end.
 
 (* ---- the parser ---- *)
-Inductive xres (A : Type) : Type :=
-| ROk (a : A)
-| RErr          (* panic(syntaxError(...)) *)
-| RCrash        (* any other run time panic *)
-| RFuel         (* out of fuel *)
-| RUnsup.       (* outside the model: function literal body, escapes in a tag or a path *)
-Arguments ROk {A} a.
-Arguments RErr {A}.
-Arguments RCrash {A}.
-Arguments RFuel {A}.
-Arguments RUnsup {A}.
-
-Definition rbind {A B : Type} (r : xres A) (f : A -> xres B) : xres B :=
-  match r with
-  | ROk a => f a
-  | RErr => RErr
-  | RCrash => RCrash
-  | RFuel => RFuel
-  | RUnsup => RUnsup
-  end.
-
 Record pflags := mkfl { fl_guard : bool; fl_elide : bool; fl_type : bool; fl_block : bool }.
 Definition fl_expr : pflags := mkfl false false false false.   (* parseExpr(tok, false, false, false, false) *)
 Definition fl_typ : pflags := mkfl false false true false.     (* parseExpr(tok, false, false, true, false) *)
@@ -672,499 +685,542 @@ Fixpoint pnames (ts : list tk) (acc : list bytes) {struct ts} : xres (list bytes
 
 (* ts in what follows is the token stream whose head is the current token
    `tok`; nil is the end of the source. *)
+(* The bodies of the functions of the parser, each over the functions it calls
+   (the recursive calls of the Go code): the fixpoint below passes them with
+   one unit of fuel less. *)
+Section Bodies.
+Variable pexpr_ : pflags -> list tk -> RT.
+Variable poperand_ : pflags -> bool -> bool -> bool -> list fr -> list tk -> RT.
+Variable ppost_ : pflags -> bool -> bool -> bool -> list fr -> option ex -> list tk -> RT.
+Variable pelems_ : list tk -> xres (list (option ex * ex) * list tk).
+Variable pargs_ : list tk -> list ex -> xres (list ex * list tk).
+Variable pfields_ : list tk -> xres (list field * list tk).
+Variable pfield_ : list tk -> xres (field * list tk).
+Variable pfunc_ : bool -> bool -> list tk -> xres (ex * list tk).
+Variable pparams_ : bool -> bool -> list tk -> xres (option (list param) * bool * list tk).
+Variable pplist_ : bool -> list tk -> list param -> option nat -> xres (option (list param) * bool * list tk).
+
+(* the top of the for loop of parseExpr: the switch on the type of tok *)
+Definition poperand_body (fl : pflags) (cancl guard mbsg : bool) (P : list fr) (ts : list tk)
+  : RT :=
+  let post := ppost_ fl in
+  let dflt :=
+    match ts with
+    | KLBrace :: _ => if fl_elide fl then post cancl guard mbsg P None ts
+                      else match P with [] => ROk (None, ts) | _ :: _ => RErr end
+    | _ => match P with [] => ROk (None, ts) | _ :: _ => RErr end
+    end in
+  match ts with
+  | KLP :: r =>
+    rbind (pexpr_ (mkfl false false (fl_type fl) false) r) (fun x =>
+    match x with
+    | (Some e, KRP :: r') => post cancl guard mbsg P (Some (add_paren e)) r'
+    | _ => RErr
+    end)
+  | KKw WMap :: r =>
+    match r with
+    | KLBrack :: r1 =>
+      rbind (pexpr_ fl_typ r1) (fun x =>
+      match x with
+      | (k, KRBrack :: r2) =>
+        rbind (pexpr_ fl_typ r2) (fun y =>
+        match y with
+        | (Some v, r3) => post true guard mbsg P (Some (XMap 0 k v)) r3
+        | (None, _) => RErr
+        end)
+      | _ => RErr
+      end)
+    | _ => RErr
+    end
+  | KKw WStruct :: r =>
+    match r with
+    | KLBrace :: r1 =>
+      rbind (pfields_ r1) (fun x => post true guard mbsg P (Some (XStruct 0 (fst x))) (snd x))
+    | _ => RErr
+    end
+  | KKw WInterface :: r =>
+    match r with
+    | KLBrace :: KRBrace :: r1 => post cancl guard mbsg P (Some (XInterface 0)) r1
+    | _ => RErr
+    end
+  | KKw WFunc :: r =>
+    rbind (pfunc_ false (negb (fl_type fl)) r) (fun x => post cancl guard mbsg P (Some (fst x)) (snd x))
+  | KKw WMacro :: r =>
+    rbind (pfunc_ true false r) (fun x => post cancl guard mbsg P (Some (fst x)) (snd x))
+  | KKw WChan :: r =>
+    (* chan, chan<- *)
+    let '(dir, r1) := match r with
+                      | KSym s :: r' => if bytes_eqb s sym_arrow then (dir_send, r') else (dir_none, r)
+                      | _ => (dir_none, r)
+                      end in
+    rbind (pexpr_ fl_typ r1) (fun x =>
+    match x with
+    | (Some e, r2) => post cancl guard mbsg P (Some (XChan 0 dir e)) r2
+    | (None, _) => RErr
+    end)
+  | KSym s :: r =>
+    if bytes_eqb s sym_arrow then
+      match r with
+      | KKw WChan :: r1 =>
+        (* <-chan: `tok = p.next()` then the element type (no test for a second arrow: direction is set) *)
+        rbind (pexpr_ fl_typ r1) (fun x =>
+        match x with
+        | (Some e, r2) => post cancl guard mbsg P (Some (XChan 0 dir_recv e)) r2
+        | (None, _) => RErr
+        end)
+      | _ =>
+        if fl_type fl then RErr
+        else poperand_ fl cancl false mbsg (GUn op_receive :: P) r
+      end
+    else
+      match klookup unary_tokens s with
+      | Some u =>
+        if fl_type fl && negb (bytes_eqb s sym_mul) then RErr
+        else poperand_ fl cancl false mbsg (GUn u :: P) r
+      | None => dflt
+      end
+  | KLit k s :: r =>
+    if fl_type fl then RErr else post cancl guard mbsg P (Some (XLit 0 k s)) r
+  | KIdent a :: r =>
+    if fl_type fl then
+      match r with
+      | KPeriod :: r1 =>
+        match r1 with
+        | KIdent b :: r2 => post cancl guard mbsg P (Some (XSel 0 (XIdent 0 a) b)) r2
+        | _ => RErr
+        end
+      | _ => post cancl guard mbsg P (Some (XIdent 0 a)) r
+      end
+    else post cancl guard mbsg P (Some (XIdent 0 a)) r
+  | KLBrack :: r =>
+    let after_len (len : option ex) (ellipsis : bool) (r1 : list tk) : RT :=
+      match r1 with
+      | KRBrack :: r2 =>
+        rbind (pexpr_ fl_typ r2) (fun y =>
+        match y with
+        | (Some e, r3) =>
+          post true guard mbsg P
+               (Some (if ellipsis then XArray 0 None e
+                      else match len with None => XSlice 0 e | Some l => XArray 0 (Some l) e end)) r3
+        | (None, _) => RErr
+        end)
+      | _ => RErr
+      end in
+    match r with
+    | KEllipsis :: r1 => after_len None true r1
+    | KRBrack :: _ => after_len None false r
+    | _ =>
+      rbind (pexpr_ fl_expr r) (fun x =>
+      match x with
+      | (Some l, r1) => after_len (Some l) false r1
+      | (None, _) => RErr
+      end)
+    end
+  | KKw WRender :: r =>
+    match r with
+    | KLit k s :: r1 =>
+      if k =? lit_string then
+        rbind (unquote s) (fun path =>
+        if valid_path path then post cancl guard mbsg P (Some (XRender 0 path)) r1 else RErr)
+      else RErr
+    | _ => RErr
+    end
+  | _ => dflt
+  end.
+
+(* one iteration of `for operator == nil` *)
+Definition ppost_body (fl : pflags) (cancl guard mbsg : bool) (P : list fr) (o : option ex) (ts : list tk)
+  : RT :=
+  let dont_eat := match ts with KLBrace :: _ => fl_block fl && negb cancl | _ => false end in
+  if dont_eat || fl_type fl then finish P o ts
+  else
+    let ret := if mbsg && negb (is_type_guard o) then RErr else finish P o ts in
+    let binary (b : N) (r : list tk) : RT :=
+      match o with
+      | None => RCrash
+      | Some e =>
+        match bprec b with
+        | None => RCrash                  (* op.Precedence() panics *)
+        | Some pb =>
+          match reduce P pb e with
+          | Some (P', l) => poperand_ fl cancl false mbsg (GBin b l :: P') r
+          | None => RCrash
+          end
+        end
+      end in
+    match ts with
+    | KLBrace :: r =>
+      if match o with Some e => negb (Nat.eqb (parens_of e) 0) | None => false end then RErr
+      else
+        rbind (pelems_ r) (fun x =>
+        match snd x with
+        | KRBrace :: r1 => ppost_ fl false guard mbsg P (Some (XCompLit 0 o (fst x))) r1
+        | _ => RErr
+        end)
+    | KLP :: r =>
+      match o with
+      | None => RCrash
+      | Some f =>
+        rbind (pargs_ r []) (fun x =>
+        let '(args, r1) := x in
+        let '(v, r2) := match r1 with KEllipsis :: r' => (true, r') | _ => (false, r1) end in
+        if v && match args with [] => true | _ => false end then RErr
+        else match r2 with
+             | KRP :: r3 => ppost_ fl false guard mbsg P (Some (XCall 0 f args v)) r3
+             | _ => RErr
+             end)
+      end
+    | KLBrack :: r =>
+      match o with
+      | None => RCrash
+      | Some x0 =>
+        rbind (pexpr_ fl_expr r) (fun a =>
+        let '(index, r1) := a in
+        match r1 with
+        | KColon :: r2 =>
+          rbind (pexpr_ fl_expr r2) (fun b =>
+          let '(high, r3) := b in
+          match r3 with
+          | KColon :: r4 =>
+            rbind (pexpr_ fl_expr r4) (fun c =>
+            let '(mx, r5) := c in
+            match r5 with
+            | KRBrack :: r6 => ppost_ fl cancl guard mbsg P (Some (XSlicing 0 x0 index high mx true)) r6
+            | _ => RErr
+            end)
+          | KRBrack :: r4 => ppost_ fl cancl guard mbsg P (Some (XSlicing 0 x0 index high None false)) r4
+          | _ => RErr
+          end)
+        | KRBrack :: r2 =>
+          match index with
+          | Some i => ppost_ fl cancl guard mbsg P (Some (XIndex 0 x0 i)) r2
+          | None => RErr
+          end
+        | _ => RErr
+        end)
+      end
+    | KPeriod :: r =>
+      match o with
+      | None => RCrash
+      | Some x0 =>
+        match r with
+        | KIdent a :: r1 => ppost_ fl cancl guard mbsg P (Some (XSel 0 x0 a)) r1
+        | KLP :: r1 =>
+          match r1 with
+          | KKw WType :: r2 =>
+            if negb guard then RErr
+            else match r2 with
+                 | KRP :: r3 => ppost_ fl cancl guard true P (Some (XTypeAssert 0 x0 None)) r3
+                 | _ => RErr
+                 end
+          | _ =>
+            if match r1 with KIdent a :: _ => bytes_eqb a [95] | _ => false end then RErr
+            else
+              rbind (pexpr_ (mkfl true false true false) r1) (fun a =>
+              match a with
+              | (Some t, KRP :: r3) => ppost_ fl cancl guard mbsg P (Some (XTypeAssert 0 x0 (Some t))) r3
+              | _ => RErr
+              end)
+          end
+        | _ => RErr
+        end
+      end
+    | KSym s :: r =>
+      if bytes_eqb s sym_not then
+        (* e not contains: the token after `not` is read; without `contains` it is lost *)
+        match r with
+        | KSym s' :: r1 => if bytes_eqb s' sym_contains then binary op_not_contains r1
+                           else if mbsg && negb (is_type_guard o) then RErr else finish P o (KSym s :: r1)
+        | _ :: r1 => if mbsg && negb (is_type_guard o) then RErr else finish P o (KSym s :: r1)
+        | [] => ret
+        end
+      else
+        match klookup binary_tokens s with
+        | Some b => binary b r
+        | None => ret
+        end
+    | KKw WDefault :: r =>
+      if tmpl then
+        match o with
+        | None => RCrash
+        | Some l =>
+          if default_left_ok l then
+            rbind (pexpr_ (mkfl false false false (fl_block fl)) r) (fun a =>
+            match a with
+            | (Some e2, r1) => ppost_ fl cancl guard mbsg P (Some (XDefault 0 l e2)) r1
+            | (None, _) => RErr
+            end)
+          else RErr
+        end
+      else ret
+    | _ => ret
+    end.
+
+(* the elements of a composite literal, after the left brace or a separator:
+   the result is the key-value pairs and the stream at the token that ended them *)
+Definition pelems_body (ts : list tk)
+  : xres (list (option ex * ex) * list tk) :=
+  rbind (pexpr_ fl_elem ts) (fun a =>
+  match a with
+  | (None, r) => ROk ([], r)
+  | (Some e, r) =>
+    match r with
+    | KColon :: r1 =>
+      rbind (pexpr_ fl_elem r1) (fun b =>
+      match b with
+      | (None, _) => RErr
+      | (Some v, r2) =>
+        match r2 with
+        | KRBrace :: _ => ROk ([(Some e, v)], r2)
+        | [] => RCrash                  (* next called after EOF *)
+        | _ :: r3 => rbind (pelems_ r3) (fun c => ROk ((Some e, v) :: fst c, snd c))
+        end
+      end)
+    | KComma :: r1 => rbind (pelems_ r1) (fun c => ROk ((None, e) :: fst c, snd c))
+    | KRBrace :: _ => ROk ([(None, e)], r)
+    | _ => RErr
+    end
+  end).
+
+(* parseExprListInParenthesis *)
+Definition pargs_body (ts : list tk) (acc : list ex)
+  : xres (list ex * list tk) :=
+  rbind (pexpr_ fl_expr ts) (fun a =>
+  match a with
+  | (None, r) =>
+    match acc, r with
+    | [], _ => ROk ([], r)
+    | _ :: _, KRP :: _ => ROk (acc, r)
+    | _ :: _, _ => RErr
+    end
+  | (Some e, r) =>
+    match r with
+    | KComma :: r1 => pargs_ r1 (acc ++ [e])
+    | _ => ROk (acc ++ [e], r)
+    end
+  end).
+
+(* the fields of a struct type up to the right brace; the stream after the brace *)
+Definition pfields_body (ts : list tk)
+  : xres (list field * list tk) :=
+  match ts with
+  | KRBrace :: r => ROk ([], r)
+  | _ =>
+    rbind (pfield_ ts) (fun a => rbind (pfields_ (snd a)) (fun b => ROk (fst a :: fst b, snd b)))
+  end.
+
+(* parseField *)
+Definition pfield_body (ts : list tk)
+  : xres (field * list tk) :=
+  let tail (names : list bytes) (t : ex) (r : list tk) : xres (field * list tk) :=
+    let after (tag : bytes) (r1 : list tk) : xres (field * list tk) :=
+      match r1 with
+      | KSemi :: r2 => ROk ((names, t, tag), r2)
+      | KRBrace :: _ => ROk ((names, t, tag), r1)
+      | _ => RErr
+      end in
+    match r with
+    | KLit k s :: r1 => if k =? lit_string then rbind (unquote s) (fun tag => after tag r1) else after [] r
+    | _ => after [] r
+    end in
+  match ts with
+  | KSym s :: r =>
+    if bytes_eqb s sym_mul then
+      match r with
+      | KIdent a :: KPeriod :: r1 =>
+        match r1 with
+        | KIdent b :: r2 => tail [] (XUn 0 op_pointer (XSel 0 (XIdent 0 a) b)) r2
+        | _ => RErr
+        end
+      | KIdent a :: r1 => tail [] (XUn 0 op_pointer (XIdent 0 a)) r1
+      | _ => RErr
+      end
+    else RErr
+  | KIdent a :: r =>
+    match r with
+    | KPeriod :: r1 =>
+      match r1 with
+      | KIdent b :: r2 => tail [] (XSel 0 (XIdent 0 a) b) r2
+      | _ => RErr
+      end
+    | KComma :: _ =>
+      rbind (pnames r [a]) (fun x =>
+      rbind (pexpr_ fl_typ (snd x)) (fun y =>
+      match y with
+      | (Some t, r2) => tail (fst x) t r2
+      | (None, _) => RErr
+      end))
+    | KLit k _ :: _ =>
+      if k =? lit_string then tail [] (XIdent 0 a) r
+      else rbind (pexpr_ fl_typ r) (fun y =>
+           match y with
+           | (Some t, r2) => tail [a] t r2
+           | (None, r2) => tail [] (XIdent 0 a) r2
+           end)
+    | _ =>
+      rbind (pexpr_ fl_typ r) (fun y =>
+      match y with
+      | (Some t, r2) => tail [a] t r2
+      | (None, r2) => tail [] (XIdent 0 a) r2
+      end)
+    end
+  | _ => RErr
+  end.
+
+(* parseFunc for a function type (lit: a function literal is admitted) or a macro type, after the keyword *)
+Definition pfunc_body (macro lit : bool) (ts : list tk)
+  : xres (ex * list tk) :=
+  match ts with
+  | KIdent _ :: _ => RErr
+  | _ =>
+    rbind (pparams_ macro false ts) (fun a =>
+    let '(params, v, r1) := a in
+    match params with
+    | None => RErr
+    | Some ps =>
+      rbind (pparams_ macro true r1) (fun b =>
+      let '(results, _, r2) := b in
+      match results, macro with
+      | None, true => RErr
+      | _, _ =>
+        let t := XFunc 0 macro ps (match results with Some rs => rs | None => [] end) v in
+        if lit then
+          match r2 with
+          | KLBrace :: _ => RUnsup            (* the body of a function literal *)
+          | _ => ROk (t, r2)
+          end
+        else ROk (t, r2)
+      end)
+    end)
+  end.
+
+(* parseFuncParameters *)
+Definition pparams_body (macro is_result : bool) (ts : list tk)
+  : xres (option (list param) * bool * list tk) :=
+  let plist :=
+    match ts with
+    | KLP :: r =>
+      match r with
+      | KRP :: r1 => ROk (Some [], false, r1)
+      | _ => pplist_ is_result r [] None
+      end
+    | _ => ROk (None, false, ts)
+    end in
+  if is_result then
+    if macro then
+      match ts with
+      | KIdent a :: r => if memb macro_results a then ROk (Some [(None, Some (XIdent 0 a))], false, r) else ROk (None, false, ts)
+      | _ => ROk (None, false, ts)
+      end
+    else
+      match ts with
+      | t :: _ =>
+        if starts_result t then
+          rbind (pexpr_ (mkfl false false true true) ts) (fun a =>
+          match a with
+          | (Some e, r) => ROk (Some [(None, Some e)], false, r)
+          | (None, _) => RCrash                (* expr.Pos() on a nil expression *)
+          end)
+        else plist
+      | [] => plist
+      end
+  else plist.
+
+(* the loop of parseFuncParameters *)
+Definition pplist_body (is_result : bool) (ts : list tk) (acc : list param) (ei : option nat)
+  : xres (option (list param) * bool * list tk) :=
+  rbind (pexpr_ fl_typ ts) (fun a =>
+  let '(t, r) := a in
+  let '(ei', r1) := match r with
+                    | KEllipsis :: r' => (match ei with None => Some (length acc) | Some _ => ei end, r')
+                    | _ => (ei, r)
+                    end in
+  rbind (pexpr_ fl_typ r1) (fun b =>
+  let '(ide, r2) := b in
+  let q : option param :=
+    match ide with
+    | Some i =>
+      match t with
+      | Some ty => match ident_name ty with Some a => Some (Some a, Some i) | None => None end
+      | None => Some (None, Some i)
+      end
+    | None => Some (None, t)
+    end in
+  match q with
+  | None => RErr
+  | Some (None, None) =>
+    match r2 with
+    | KRP :: r3 => params_finish is_result acc ei' r3
+    | _ => RErr
+    end
+  | Some q' =>
+    match r2 with
+    | KComma :: r3 => pplist_ is_result r3 (acc ++ [q']) ei'
+    | KRP :: r3 => params_finish is_result (acc ++ [q']) ei' r3
+    | _ => RErr
+    end
+  end)).
+
+End Bodies.
+
 Fixpoint pexpr (n : nat) (fl : pflags) (ts : list tk) {struct n} : RT :=
   match n with
   | O => RFuel
   | S m => poperand m fl false (fl_guard fl) false [] ts
   end
-
-(* the top of the for loop of parseExpr: the switch on the type of tok *)
-with poperand (n : nat) (fl : pflags) (cancl guard mbsg : bool) (P : list fr) (ts : list tk) {struct n} : RT :=
+with poperand (n : nat) (fl : pflags) (cancl guard mbsg : bool) (P : list fr) (ts : list tk) {struct n}
+  : RT :=
   match n with
   | O => RFuel
-  | S m =>
-    let post := ppost m fl in
-    let dflt :=
-      match ts with
-      | KLBrace :: _ => if fl_elide fl then post cancl guard mbsg P None ts
-                        else match P with [] => ROk (None, ts) | _ :: _ => RErr end
-      | _ => match P with [] => ROk (None, ts) | _ :: _ => RErr end
-      end in
-    match ts with
-    | KLP :: r =>
-      rbind (pexpr m (mkfl false false (fl_type fl) false) r) (fun x =>
-      match x with
-      | (Some e, KRP :: r') => post cancl guard mbsg P (Some (add_paren e)) r'
-      | _ => RErr
-      end)
-    | KKw WMap :: r =>
-      match r with
-      | KLBrack :: r1 =>
-        rbind (pexpr m fl_typ r1) (fun x =>
-        match x with
-        | (k, KRBrack :: r2) =>
-          rbind (pexpr m fl_typ r2) (fun y =>
-          match y with
-          | (Some v, r3) => post true guard mbsg P (Some (XMap 0 k v)) r3
-          | (None, _) => RErr
-          end)
-        | _ => RErr
-        end)
-      | _ => RErr
-      end
-    | KKw WStruct :: r =>
-      match r with
-      | KLBrace :: r1 =>
-        rbind (pfields m r1) (fun x => post true guard mbsg P (Some (XStruct 0 (fst x))) (snd x))
-      | _ => RErr
-      end
-    | KKw WInterface :: r =>
-      match r with
-      | KLBrace :: KRBrace :: r1 => post cancl guard mbsg P (Some (XInterface 0)) r1
-      | _ => RErr
-      end
-    | KKw WFunc :: r =>
-      rbind (pfunc m false (negb (fl_type fl)) r) (fun x => post cancl guard mbsg P (Some (fst x)) (snd x))
-    | KKw WMacro :: r =>
-      rbind (pfunc m true false r) (fun x => post cancl guard mbsg P (Some (fst x)) (snd x))
-    | KKw WChan :: r =>
-      (* chan, chan<- *)
-      let '(dir, r1) := match r with
-                        | KSym s :: r' => if bytes_eqb s sym_arrow then (dir_send, r') else (dir_none, r)
-                        | _ => (dir_none, r)
-                        end in
-      rbind (pexpr m fl_typ r1) (fun x =>
-      match x with
-      | (Some e, r2) => post cancl guard mbsg P (Some (XChan 0 dir e)) r2
-      | (None, _) => RErr
-      end)
-    | KSym s :: r =>
-      if bytes_eqb s sym_arrow then
-        match r with
-        | KKw WChan :: r1 =>
-          (* <-chan: `tok = p.next()` then the element type (no test for a second arrow: direction is set) *)
-          rbind (pexpr m fl_typ r1) (fun x =>
-          match x with
-          | (Some e, r2) => post cancl guard mbsg P (Some (XChan 0 dir_recv e)) r2
-          | (None, _) => RErr
-          end)
-        | _ =>
-          if fl_type fl then RErr
-          else poperand m fl cancl false mbsg (GUn op_receive :: P) r
-        end
-      else
-        match klookup unary_tokens s with
-        | Some u =>
-          if fl_type fl && negb (bytes_eqb s sym_mul) then RErr
-          else poperand m fl cancl false mbsg (GUn u :: P) r
-        | None => dflt
-        end
-    | KLit k s :: r =>
-      if fl_type fl then RErr else post cancl guard mbsg P (Some (XLit 0 k s)) r
-    | KIdent a :: r =>
-      if fl_type fl then
-        match r with
-        | KPeriod :: r1 =>
-          match r1 with
-          | KIdent b :: r2 => post cancl guard mbsg P (Some (XSel 0 (XIdent 0 a) b)) r2
-          | _ => RErr
-          end
-        | _ => post cancl guard mbsg P (Some (XIdent 0 a)) r
-        end
-      else post cancl guard mbsg P (Some (XIdent 0 a)) r
-    | KLBrack :: r =>
-      let after_len (len : option ex) (ellipsis : bool) (r1 : list tk) : RT :=
-        match r1 with
-        | KRBrack :: r2 =>
-          rbind (pexpr m fl_typ r2) (fun y =>
-          match y with
-          | (Some e, r3) =>
-            post true guard mbsg P
-                 (Some (if ellipsis then XArray 0 None e
-                        else match len with None => XSlice 0 e | Some l => XArray 0 (Some l) e end)) r3
-          | (None, _) => RErr
-          end)
-        | _ => RErr
-        end in
-      match r with
-      | KEllipsis :: r1 => after_len None true r1
-      | KRBrack :: _ => after_len None false r
-      | _ =>
-        rbind (pexpr m fl_expr r) (fun x =>
-        match x with
-        | (Some l, r1) => after_len (Some l) false r1
-        | (None, _) => RErr
-        end)
-      end
-    | KKw WRender :: r =>
-      match r with
-      | KLit k s :: r1 =>
-        if k =? lit_string then
-          rbind (unquote s) (fun path =>
-          if valid_path path then post cancl guard mbsg P (Some (XRender 0 path)) r1 else RErr)
-        else RErr
-      | _ => RErr
-      end
-    | _ => dflt
-    end
+  | S m => poperand_body (pexpr m) (poperand m) (ppost m) (pfields m) (pfunc m) fl cancl guard mbsg P ts
   end
-
-(* one iteration of `for operator == nil` *)
-with ppost (n : nat) (fl : pflags) (cancl guard mbsg : bool) (P : list fr) (o : option ex) (ts : list tk) {struct n} : RT :=
+with ppost (n : nat) (fl : pflags) (cancl guard mbsg : bool) (P : list fr) (o : option ex) (ts : list tk) {struct n}
+  : RT :=
   match n with
   | O => RFuel
-  | S m =>
-    let dont_eat := match ts with KLBrace :: _ => fl_block fl && negb cancl | _ => false end in
-    if dont_eat || fl_type fl then finish P o ts
-    else
-      let ret := if mbsg && negb (is_type_guard o) then RErr else finish P o ts in
-      let binary (b : N) (r : list tk) : RT :=
-        match o with
-        | None => RCrash
-        | Some e =>
-          match bprec b with
-          | None => RCrash                  (* op.Precedence() panics *)
-          | Some pb =>
-            match reduce P pb e with
-            | Some (P', l) => poperand m fl cancl false mbsg (GBin b l :: P') r
-            | None => RCrash
-            end
-          end
-        end in
-      match ts with
-      | KLBrace :: r =>
-        if match o with Some e => negb (Nat.eqb (parens_of e) 0) | None => false end then RErr
-        else
-          rbind (pelems m r) (fun x =>
-          match snd x with
-          | KRBrace :: r1 => ppost m fl false guard mbsg P (Some (XCompLit 0 o (fst x))) r1
-          | _ => RErr
-          end)
-      | KLP :: r =>
-        match o with
-        | None => RCrash
-        | Some f =>
-          rbind (pargs m r []) (fun x =>
-          let '(args, r1) := x in
-          let '(v, r2) := match r1 with KEllipsis :: r' => (true, r') | _ => (false, r1) end in
-          if v && match args with [] => true | _ => false end then RErr
-          else match r2 with
-               | KRP :: r3 => ppost m fl false guard mbsg P (Some (XCall 0 f args v)) r3
-               | _ => RErr
-               end)
-        end
-      | KLBrack :: r =>
-        match o with
-        | None => RCrash
-        | Some x0 =>
-          rbind (pexpr m fl_expr r) (fun a =>
-          let '(index, r1) := a in
-          match r1 with
-          | KColon :: r2 =>
-            rbind (pexpr m fl_expr r2) (fun b =>
-            let '(high, r3) := b in
-            match r3 with
-            | KColon :: r4 =>
-              rbind (pexpr m fl_expr r4) (fun c =>
-              let '(mx, r5) := c in
-              match r5 with
-              | KRBrack :: r6 => ppost m fl cancl guard mbsg P (Some (XSlicing 0 x0 index high mx true)) r6
-              | _ => RErr
-              end)
-            | KRBrack :: r4 => ppost m fl cancl guard mbsg P (Some (XSlicing 0 x0 index high None false)) r4
-            | _ => RErr
-            end)
-          | KRBrack :: r2 =>
-            match index with
-            | Some i => ppost m fl cancl guard mbsg P (Some (XIndex 0 x0 i)) r2
-            | None => RErr
-            end
-          | _ => RErr
-          end)
-        end
-      | KPeriod :: r =>
-        match o with
-        | None => RCrash
-        | Some x0 =>
-          match r with
-          | KIdent a :: r1 => ppost m fl cancl guard mbsg P (Some (XSel 0 x0 a)) r1
-          | KLP :: r1 =>
-            match r1 with
-            | KKw WType :: r2 =>
-              if negb guard then RErr
-              else match r2 with
-                   | KRP :: r3 => ppost m fl cancl guard true P (Some (XTypeAssert 0 x0 None)) r3
-                   | _ => RErr
-                   end
-            | _ =>
-              if match r1 with KIdent [95] :: _ => true | _ => false end then RErr
-              else
-                rbind (pexpr m (mkfl true false true false) r1) (fun a =>
-                match a with
-                | (Some t, KRP :: r3) => ppost m fl cancl guard mbsg P (Some (XTypeAssert 0 x0 (Some t))) r3
-                | _ => RErr
-                end)
-            end
-          | _ => RErr
-          end
-        end
-      | KSym s :: r =>
-        if bytes_eqb s sym_not then
-          (* e not contains: the token after `not` is read; without `contains` it is lost *)
-          match r with
-          | KSym s' :: r1 => if bytes_eqb s' sym_contains then binary op_not_contains r1
-                             else if mbsg && negb (is_type_guard o) then RErr else finish P o (KSym s :: r1)
-          | _ :: r1 => if mbsg && negb (is_type_guard o) then RErr else finish P o (KSym s :: r1)
-          | [] => ret
-          end
-        else
-          match klookup binary_tokens s with
-          | Some b => binary b r
-          | None => ret
-          end
-      | KKw WDefault :: r =>
-        if tmpl then
-          match o with
-          | None => RCrash
-          | Some l =>
-            if default_left_ok l then
-              rbind (pexpr m (mkfl false false false (fl_block fl)) r) (fun a =>
-              match a with
-              | (Some e2, r1) => ppost m fl cancl guard mbsg P (Some (XDefault 0 l e2)) r1
-              | (None, _) => RErr
-              end)
-            else RErr
-          end
-        else ret
-      | _ => ret
-      end
+  | S m => ppost_body (pexpr m) (poperand m) (ppost m) (pelems m) (pargs m) fl cancl guard mbsg P o ts
   end
-
-(* the elements of a composite literal, after the left brace or a separator:
-   the result is the key-value pairs and the stream at the token that ended them *)
-with pelems (n : nat) (ts : list tk) {struct n} : xres (list (option ex * ex) * list tk) :=
+with pelems (n : nat) (ts : list tk) {struct n}
+  : xres (list (option ex * ex) * list tk) :=
   match n with
   | O => RFuel
-  | S m =>
-    rbind (pexpr m fl_elem ts) (fun a =>
-    match a with
-    | (None, r) => ROk ([], r)
-    | (Some e, r) =>
-      match r with
-      | KColon :: r1 =>
-        rbind (pexpr m fl_elem r1) (fun b =>
-        match b with
-        | (None, _) => RErr
-        | (Some v, r2) =>
-          match r2 with
-          | KRBrace :: _ => ROk ([(Some e, v)], r2)
-          | [] => RCrash                  (* next called after EOF *)
-          | _ :: r3 => rbind (pelems m r3) (fun c => ROk ((Some e, v) :: fst c, snd c))
-          end
-        end)
-      | KComma :: r1 => rbind (pelems m r1) (fun c => ROk ((None, e) :: fst c, snd c))
-      | KRBrace :: _ => ROk ([(None, e)], r)
-      | _ => RErr
-      end
-    end)
+  | S m => pelems_body (pexpr m) (pelems m) ts
   end
-
-(* parseExprListInParenthesis *)
-with pargs (n : nat) (ts : list tk) (acc : list ex) {struct n} : xres (list ex * list tk) :=
+with pargs (n : nat) (ts : list tk) (acc : list ex) {struct n}
+  : xres (list ex * list tk) :=
   match n with
   | O => RFuel
-  | S m =>
-    rbind (pexpr m fl_expr ts) (fun a =>
-    match a with
-    | (None, r) =>
-      match acc, r with
-      | [], _ => ROk ([], r)
-      | _ :: _, KRP :: _ => ROk (acc, r)
-      | _ :: _, _ => RErr
-      end
-    | (Some e, r) =>
-      match r with
-      | KComma :: r1 => pargs m r1 (acc ++ [e])
-      | _ => ROk (acc ++ [e], r)
-      end
-    end)
+  | S m => pargs_body (pexpr m) (pargs m) ts acc
   end
-
-(* the fields of a struct type up to the right brace; the stream after the brace *)
-with pfields (n : nat) (ts : list tk) {struct n} : xres (list field * list tk) :=
+with pfields (n : nat) (ts : list tk) {struct n}
+  : xres (list field * list tk) :=
   match n with
   | O => RFuel
-  | S m =>
-    match ts with
-    | KRBrace :: r => ROk ([], r)
-    | _ =>
-      rbind (pfield m ts) (fun a => rbind (pfields m (snd a)) (fun b => ROk (fst a :: fst b, snd b)))
-    end
+  | S m => pfields_body (pfields m) (pfield m) ts
   end
-
-(* parseField *)
-with pfield (n : nat) (ts : list tk) {struct n} : xres (field * list tk) :=
+with pfield (n : nat) (ts : list tk) {struct n}
+  : xres (field * list tk) :=
   match n with
   | O => RFuel
-  | S m =>
-    let tail (names : list bytes) (t : ex) (r : list tk) : xres (field * list tk) :=
-      let after (tag : bytes) (r1 : list tk) : xres (field * list tk) :=
-        match r1 with
-        | KSemi :: r2 => ROk ((names, t, tag), r2)
-        | KRBrace :: _ => ROk ((names, t, tag), r1)
-        | _ => RErr
-        end in
-      match r with
-      | KLit k s :: r1 => if k =? lit_string then rbind (unquote s) (fun tag => after tag r1) else after [] r
-      | _ => after [] r
-      end in
-    match ts with
-    | KSym s :: r =>
-      if bytes_eqb s sym_mul then
-        match r with
-        | KIdent a :: KPeriod :: r1 =>
-          match r1 with
-          | KIdent b :: r2 => tail [] (XUn 0 op_pointer (XSel 0 (XIdent 0 a) b)) r2
-          | _ => RErr
-          end
-        | KIdent a :: r1 => tail [] (XUn 0 op_pointer (XIdent 0 a)) r1
-        | _ => RErr
-        end
-      else RErr
-    | KIdent a :: r =>
-      match r with
-      | KPeriod :: r1 =>
-        match r1 with
-        | KIdent b :: r2 => tail [] (XSel 0 (XIdent 0 a) b) r2
-        | _ => RErr
-        end
-      | KComma :: _ =>
-        rbind (pnames r [a]) (fun x =>
-        rbind (pexpr m fl_typ (snd x)) (fun y =>
-        match y with
-        | (Some t, r2) => tail (fst x) t r2
-        | (None, _) => RErr
-        end))
-      | KLit k _ :: _ =>
-        if k =? lit_string then tail [] (XIdent 0 a) r
-        else rbind (pexpr m fl_typ r) (fun y =>
-             match y with
-             | (Some t, r2) => tail [a] t r2
-             | (None, r2) => tail [] (XIdent 0 a) r2
-             end)
-      | _ =>
-        rbind (pexpr m fl_typ r) (fun y =>
-        match y with
-        | (Some t, r2) => tail [a] t r2
-        | (None, r2) => tail [] (XIdent 0 a) r2
-        end)
-      end
-    | _ => RErr
-    end
+  | S m => pfield_body (pexpr m) ts
   end
-
-(* parseFunc for a function type (lit: a function literal is admitted) or a macro type, after the keyword *)
-with pfunc (n : nat) (macro lit : bool) (ts : list tk) {struct n} : xres (ex * list tk) :=
+with pfunc (n : nat) (macro lit : bool) (ts : list tk) {struct n}
+  : xres (ex * list tk) :=
   match n with
   | O => RFuel
-  | S m =>
-    match ts with
-    | KIdent _ :: _ => RErr
-    | _ =>
-      rbind (pparams m macro false ts) (fun a =>
-      let '(params, v, r1) := a in
-      match params with
-      | None => RErr
-      | Some ps =>
-        rbind (pparams m macro true r1) (fun b =>
-        let '(results, _, r2) := b in
-        match results, macro with
-        | None, true => RErr
-        | _, _ =>
-          let t := XFunc 0 macro ps (match results with Some rs => rs | None => [] end) v in
-          if lit then
-            match r2 with
-            | KLBrace :: _ => RUnsup            (* the body of a function literal *)
-            | _ => ROk (t, r2)
-            end
-          else ROk (t, r2)
-        end)
-      end)
-    end
+  | S m => pfunc_body (pparams m) macro lit ts
   end
-
-(* parseFuncParameters *)
-with pparams (n : nat) (macro is_result : bool) (ts : list tk) {struct n} : xres (option (list param) * bool * list tk) :=
+with pparams (n : nat) (macro is_result : bool) (ts : list tk) {struct n}
+  : xres (option (list param) * bool * list tk) :=
   match n with
   | O => RFuel
-  | S m =>
-    let plist :=
-      match ts with
-      | KLP :: r =>
-        match r with
-        | KRP :: r1 => ROk (Some [], false, r1)
-        | _ => pplist m is_result r [] None
-        end
-      | _ => ROk (None, false, ts)
-      end in
-    if is_result then
-      if macro then
-        match ts with
-        | KIdent a :: r => if memb macro_results a then ROk (Some [(None, Some (XIdent 0 a))], false, r) else ROk (None, false, ts)
-        | _ => ROk (None, false, ts)
-        end
-      else
-        match ts with
-        | t :: _ =>
-          if starts_result t then
-            rbind (pexpr m (mkfl false false true true) ts) (fun a =>
-            match a with
-            | (Some e, r) => ROk (Some [(None, Some e)], false, r)
-            | (None, _) => RCrash                (* expr.Pos() on a nil expression *)
-            end)
-          else plist
-        | [] => plist
-        end
-    else plist
+  | S m => pparams_body (pexpr m) (pplist m) macro is_result ts
   end
-
-(* the loop of parseFuncParameters *)
 with pplist (n : nat) (is_result : bool) (ts : list tk) (acc : list param) (ei : option nat) {struct n}
   : xres (option (list param) * bool * list tk) :=
   match n with
   | O => RFuel
-  | S m =>
-    rbind (pexpr m fl_typ ts) (fun a =>
-    let '(t, r) := a in
-    let '(ei', r1) := match r with
-                      | KEllipsis :: r' => (match ei with None => Some (length acc) | Some _ => ei end, r')
-                      | _ => (ei, r)
-                      end in
-    rbind (pexpr m fl_typ r1) (fun b =>
-    let '(ide, r2) := b in
-    let q : option param :=
-      match ide with
-      | Some i =>
-        match t with
-        | Some ty => match ident_name ty with Some a => Some (Some a, Some i) | None => None end
-        | None => Some (None, Some i)
-        end
-      | None => Some (None, t)
-      end in
-    match q with
-    | None => RErr
-    | Some (None, None) =>
-      match r2 with
-      | KRP :: r3 => params_finish is_result acc ei' r3
-      | _ => RErr
-      end
-    | Some q' =>
-      match r2 with
-      | KComma :: r3 => pplist m is_result r3 (acc ++ [q']) ei'
-      | KRP :: r3 => params_finish is_result (acc ++ [q']) ei' r3
-      | _ => RErr
-      end
-    end))
+  | S m => pplist_body (pexpr m) (pplist m) is_result ts acc ei
   end.
 
 (* fuel that suffices for a source of that many tokens *)
